@@ -316,7 +316,7 @@ class GopherEntry:
             self.getport(defaultport),
         )
         retval += urllib.parse.quote(
-            "{}{}".format(self.gettype(), self.getselector()), errors="surrogateescape"
+            "{}{}".format(self.gettype("0"), self.getselector()), errors="surrogateescape"
         )
         return retval
 
